@@ -45,6 +45,47 @@ func (w *w5World) Gen(rng *rand.Rand, property, tier string) (any, simrt.Sched) 
 	b, sched := w5Gen(rng, tier)
 	// C20 runs: runOnRead / runOnUnread configured on the paths (their pairing per HLS session is judged)
 	b.Hooks = property == "C20"
+	if property == "C18" {
+		// the publisher of cam1 reconnects (leaves and is back at once) while viewers open sessions:
+		// a session that is being set up at that instant is attached to a stream that goes away
+		b.SegmentMaxKB = 0
+		// (mostly without a muxer that exists beforehand: the session then creates one, which is
+		// admitted by the path some steps after the session itself)
+		b.AlwaysRemux = rng.Intn(4) == 0
+		var at []int64
+		for i := range b.Actors {
+			a := &b.Actors[i]
+			if a.Kind == "pub" && a.Path == "cam1" {
+				a.StartMs = 0
+				a.Ops = nil
+				t := int64(0)
+				for k, n := 0, 2+rng.Intn(3); k < n; k++ {
+					d := int64(2000 + 1000*rng.Intn(3))
+					a.Ops = append(a.Ops, w5Op{Op: "session", Ms: d}, w5Op{Op: "sleep", Ms: 0})
+					t += d
+					at = append(at, t)
+				}
+				a.Ops = append(a.Ops, w5Op{Op: "session", Ms: 8000})
+			}
+		}
+		for i := range b.Actors {
+			a := &b.Actors[i]
+			if a.Kind == "viewer" && len(at) > 0 {
+				a.Path, a.User, a.Pass, a.IP, a.XFF = "cam1", "viewer2", "pw2", "10.0.0.5", ""
+				// (a session that slips through a reconnection lives until the next one closes its muxer:
+				// the last reconnection is the one whose survivors the final check can see)
+				a.StartMs = at[len(at)-1] + []int64{0, 0, 0, 0, -1, 1, -100}[rng.Intn(7)]
+				if rng.Intn(4) == 0 {
+					a.StartMs = at[rng.Intn(len(at))]
+				}
+				if rng.Intn(3) != 0 {
+					// started by the reconnection itself rather than by the clock
+					a.AtReconn, a.StartMs = len(at), 0
+				}
+				a.Ops = []w5Op{{Op: "play", N: int64(3 + rng.Intn(3)), Ms: 1000}}
+			}
+		}
+	}
 	return b, sched
 }
 
@@ -88,6 +129,9 @@ type w5Harness struct {
 	created int
 	// read hook pairs per HLS session (C20 share)
 	hookOpen, hookClosed map[string]int
+	// reconn[k] is closed when the publisher of cam1 is about to reconnect for the k-th time
+	reconn  []chan struct{}
+	nreconn int
 }
 
 func (h *w5Harness) Log(level logger.Level, format string, args ...any) {
@@ -257,6 +301,23 @@ func (h *w5Harness) runPub(idx int, a *w5Actor) {
 			case <-p.closed.C():
 			}
 		}
+		if a.Path == "cam1" && si+1 < len(a.Ops) && a.Ops[si+1].Op == "sleep" && a.Ops[si+1].Ms == 0 && h.nreconn < len(h.reconn) {
+			// a reconnection: the viewers that wait for it start now; the scheduler decides how
+			// far they get before the publisher leaves
+			close(h.reconn[h.nreconn])
+			h.nreconn++
+			for i, n := 0, []int{0, 5, 10, 15, 20, 25, 30, 40, 60, 100}[simrt.Choose("reconn.lead", 10)]; i < n; i++ {
+				simrt.Yield("reconn.lead")
+			}
+		}
+		if a.Path == "cam1" && si == len(a.Ops)-1 && len(h.reconn) > 0 && !simrt.Aborted() {
+			// C18 runs: before the publisher leaves for good (which closes every session of the
+			// path), a quiet period, then every live session must be a reader of its path
+			simrt.Calm()
+			time.Sleep(2 * time.Second)
+			simrt.Settle()
+			h.sessionsAreReaders()
+		}
 		simrt.Rec("pub.remove", p.name, a.Path, 0, 0, 0)
 		res.Path.RemovePublisher(defs.PathRemovePublisherReq{Author: p})
 	}
@@ -316,7 +377,7 @@ func (h *w5Harness) do(r *w5Req) *w5Res {
 	func() {
 		defer func() {
 			if rec := recover(); rec != nil {
-				h.violate("*", "panic", "request %s from %s made the handler panic: %v", u, r.ip, rec)
+				h.violate("*", "panic", "request %s from %s made the handler panic: %v\n%s", u, r.ip, rec, w5Stack())
 			}
 		}()
 		srv.SimServe(rr, req)
@@ -408,7 +469,12 @@ func w5Split(uri string) (file, query string) {
 // ---- viewer
 
 func (h *w5Harness) runViewer(idx int, a *w5Actor) {
-	time.Sleep(time.Duration(a.StartMs) * time.Millisecond)
+	if a.AtReconn > 0 && a.AtReconn <= len(h.reconn) {
+		<-h.reconn[a.AtReconn-1]
+		time.Sleep(time.Duration(a.StartMs) * time.Millisecond)
+	} else {
+		time.Sleep(time.Duration(a.StartMs) * time.Millisecond)
+	}
 	who := fmt.Sprintf("viewer%d", idx)
 	for _, op := range a.Ops {
 		if simrt.Aborted() {
@@ -650,6 +716,15 @@ func (h *w5Harness) main() {
 		return
 	}
 	simrt.Rec("init.done", "", "", 0, 0, 0)
+	for _, a := range h.body.Actors {
+		if a.Kind == "pub" && a.Path == "cam1" {
+			for _, op := range a.Ops {
+				if op.Op == "sleep" && op.Ms == 0 {
+					h.reconn = append(h.reconn, make(chan struct{}))
+				}
+			}
+		}
+	}
 
 	var wg sync.WaitGroup
 	for i := range h.body.Actors {
@@ -673,7 +748,14 @@ func (h *w5Harness) main() {
 	}
 	wg.Wait()
 	simrt.Rec("actors.done", "", "", 0, 0, 0)
+	// faults stop here (no more stalled clocks, no more delayed goroutines); the final check
+	// runs after the quiet period, once everything in flight has been digested
+	simrt.Calm()
 	time.Sleep(time.Duration(h.body.TailMs) * time.Millisecond)
+	simrt.Settle()
+	if !simrt.Aborted() {
+		h.sessionsAreReaders()
+	}
 	simrt.Rec("shutdown.call", "", "", 0, 0, 0)
 	h.srv.Close()
 	h.pm.close()
@@ -702,12 +784,50 @@ func (h *w5Harness) main() {
 	simrt.Rec("shutdown.ret", "", "", 0, 0, 0)
 }
 
+// sessionsAreReaders: in the quiet period after the last actor every HLS session that is
+// still alive is a reader of its path. A session that the path detached when its stream went
+// away and that was not closed is alive, is served from the next stream, and is in nobody's
+// reader list (C18: "when the stream becomes unavailable every reader is detached and closed").
+func (h *w5Harness) sessionsAreReaders() {
+	l, err := h.srv.APISessionsList()
+	if err != nil {
+		return
+	}
+	items := append([]defs.APIHLSSession(nil), l.Items...)
+	sort.Slice(items, func(i, j int) bool { return items[i].ID.String() < items[j].ID.String() })
+	for _, sx := range items {
+		p, err := h.pm.APIPathsGet(sx.Path)
+		found := false
+		if err == nil {
+			for _, r := range p.Readers {
+				if r.Type == defs.APIPathReaderTypeHLSSession && r.ID == sx.ID.String() {
+					found = true
+				}
+			}
+		}
+		simrt.Rec("final.session", sx.Path, sx.ID.String(), 0, 0, 0)
+		if !found {
+			// (a session that expired between the two queries is not a survivor: it must
+			// still be alive after the readers were listed)
+			if _, err2 := h.srv.APISessionsGet(sx.ID); err2 != nil {
+				continue
+			}
+		}
+		if !found {
+			simrt.Violate("C18", "session-outlives-stream", "HLS session %s (%s, path %q) is alive in a quiet period but is not among the readers of its path (%v): it was detached from a stream that went away and was not closed",
+				sx.ID.String()[:8], sx.RemoteAddr, sx.Path, err)
+			return
+		}
+	}
+}
+
 func (w *w5World) Run(t *testing.T, sc *simrt.Scenario, cfg simrt.Config) simrt.Outcome {
 	var b w5Body
 	if err := json.Unmarshal(sc.Body, &b); err != nil {
 		return simrt.Outcome{Violations: []simrt.Violation{{Property: "!", Clause: "bad-scenario", Detail: err.Error()}}}
 	}
 	h := &w5Harness{body: &b, issued: map[string]w5Issued{}, learned: map[int]*w5Learned{}}
+	httpp.SimReset()
 	res := simrt.Run(t, cfg, h.main)
 	out := simrt.Outcome{Res: res}
 	out.Violations = append(out.Violations, res.Violations...)
